@@ -119,8 +119,9 @@ def join_lo(a, b):
 class Summary:
     """Bounds of a helper function's return value, in terms of its own parameters (sym bounds)."""
 
-    def __init__(self, params, lo, hi):
+    def __init__(self, params, lo, hi, elems=None):
         self.params, self.lo, self.hi = params, lo, hi
+        self.elems = elems          # for helpers returning a tuple: [(lo, hi), ..] per position
 
 
 def summarise(func_node, **kw):
@@ -128,6 +129,14 @@ def summarise(func_node, **kw):
     b = Bounds(func_node, **kw)
     lo = hi = None
     first = True
+    rets = [n for n in b.g.nodes if n.kind == "return" and n.ast.value is not None and n.id in b.state]
+    if rets and all(isinstance(n.ast.value, ast.Tuple) for n in rets) and len({len(n.ast.value.elts) for n in rets}) == 1:
+        elems = None
+        for n in rets:
+            cur = [b.ev(e, b.state[n.id]) for e in n.ast.value.elts]
+            elems = cur if elems is None else [(join_lo(x[0], y[0]), join_hi(x[1], y[1])) for x, y in zip(elems, cur)]
+        a = func_node.args
+        return Summary([x.arg for x in a.posonlyargs + a.args], None, None, elems)
     for n in b.g.nodes:
         if n.kind != "return" or n.ast.value is None or n.id not in b.state:
             continue
@@ -141,6 +150,29 @@ def summarise(func_node, **kw):
     a = func_node.args
     params = [x.arg for x in a.posonlyargs + a.args]
     return Summary(params, lo, hi)
+
+
+class ContextSummary:
+    """A helper analysed again for each call site, with the bounds of the actual arguments as what is known about
+    its parameters (so `len(x) >= 0` at the call site is available inside the helper)."""
+
+    def __init__(self, func_node, **kw):
+        self.node = func_node
+        self.kw = kw
+        a = func_node.args
+        self.params = [x.arg for x in a.posonlyargs + a.args]
+        self.cache = {}
+
+    def at(self, actuals):
+        key = repr(sorted(actuals.items()))
+        if key not in self.cache:
+            self.cache[key] = None
+            assume = dict(self.kw.get("assume") or {})
+            assume.update(actuals)
+            kw = dict(self.kw)
+            kw["assume"] = assume
+            self.cache[key] = summarise(self.node, **kw)
+        return self.cache[key]
 
 
 class Bounds:
@@ -222,7 +254,22 @@ class Bounds:
                 return self._apply_summary(sm, e, st)
         return (None, None)
 
-    def _apply_summary(self, sm, call, st):
+    def _apply_summary(self, sm, call, st, elem=None):
+        if isinstance(sm, ContextSummary):
+            params = sm.params[1:] if sm.params[:1] in (["self"], ["cls"]) else sm.params
+            actuals = {}
+            for p_, a_ in zip(params, call.args):
+                actuals[p_] = self.ev(a_, st)
+            for kw_ in call.keywords:
+                if kw_.arg:
+                    actuals[kw_.arg] = self.ev(kw_.value, st)
+            # bounds relative to sequences of the caller stay meaningful: they are texts of caller expressions
+            res = sm.at(actuals)
+            if res is None:
+                return (None, None)
+            if elem is not None:
+                return res.elems[elem] if res.elems is not None and elem < len(res.elems) else (None, None)
+            return (None, None) if res.elems is not None else (res.lo, res.hi)
         actual = {}
         for p, a in zip(sm.params[1:] if sm.params[:1] == ["self"] else sm.params, call.args):
             actual[p] = a
@@ -238,6 +285,12 @@ class Bounds:
                 return None
             return shift(self.ev(a, st)[side], b[2])
 
+        if elem is not None:
+            if sm.elems is None or elem >= len(sm.elems):
+                return (None, None)
+            return (sub(sm.elems[elem][0], 0), sub(sm.elems[elem][1], 1))
+        if sm.elems is not None:
+            return (None, None)
         return (sub(sm.lo, 0), sub(sm.hi, 1))
 
     # ---------------------------------------------------------------- refinement
@@ -356,6 +409,18 @@ class Bounds:
             self._kill(st, [k])
             st[k] = v
             return st
+        if isinstance(a, ast.Assign) and len(a.targets) == 1 and isinstance(a.targets[0], ast.Tuple) \
+                and isinstance(a.value, ast.Call) and self.summaries is not None \
+                and all(isinstance(x, ast.Name) for x in a.targets[0].elts):
+            sm = self.summaries(a.value)
+            n_el = len(a.targets[0].elts)
+            if isinstance(sm, ContextSummary) or (sm is not None and sm.elems is not None and len(sm.elems) == n_el):
+                vals = [self._apply_summary(sm, a.value, st, i) for i in range(n_el)]
+                names = [x.id for x in a.targets[0].elts]
+                self._kill(st, names)
+                for nm, v in zip(names, vals):
+                    st[nm] = v
+                return st
         if isinstance(a, ast.Assign):
             names = []
             for t in a.targets:
